@@ -963,7 +963,7 @@ def diff_families(chk, tool, shim, base, rng, tier):
     return stats
 
 
-def diff_skip_after_write_fault(chk, tool, shim, base, rng, caches=(1, 3, 8, 128)):
+def diff_skip_after_write_fault(chk, tool, shim, base, rng, caches=(1, 3, 8, 128), model=None, hooked=False):
     """a parity write fails with EIO and the FOLLOWING stripes need no parity update (EMPTY writer tasks): only one
     block of a multi-block file is rewritten in place, other files get new time-stamps with identical data.  The error
     must be reported exactly once and exactly the failed stripe marked bad, at every depth and schedule."""
@@ -1019,6 +1019,11 @@ def diff_skip_after_write_fault(chk, tool, shim, base, rng, caches=(1, 3, 8, 128
                 env = dict(env0)
                 env.update(fault)
                 env.update(menv)
+                tracep = os.path.join(arr.base, 'trace_skip')
+                if os.path.exists(tracep):
+                    os.remove(tracep)
+                if model and hooked and cache > 1:
+                    env['SNAPRAID_VERIF_TRACE'] = tracep
                 rc, out, tags = run_tool(tool, arr, cache, ['sync'], env, timeout=30)
                 stats['variants'] += 1
                 descr = dict(descr0, io_cache=cache, mode=mname, env=dict(fault, **menv))
@@ -1033,6 +1038,33 @@ def diff_skip_after_write_fault(chk, tool, shim, base, rng, caches=(1, 3, 8, 128
                                   'sync --test-io-cache %d (%s): ONE parity write fails (EIO at position %d) and the following stripes need no parity update; expected error_io=1, bad marks [%d], '
                                   'one parity_error tag, exit 1; got error_io=%s bad marks %s, %d parity_error tags, exit %s: a writer error is reported more than once / against skipped stripes'
                                   % (cache, mname, fail_pos, fail_pos, summ.get('error_io'), bad, len(perr), rc), dict(descr, tags=tags[:40], bad=bad))
+                # tie of the error bookkeeping model (coq/Ring/RingErr.v): the recorded trace replayed through the extracted
+                # `estep` with the injected failure predicts what the caller collects; compare with what the tool reports
+                if model and hooked and cache > 1 and os.path.exists(tracep):
+                    try:
+                        sess = c13_trace.parse_sessions(open(tracep).read())
+                        pc, pb = [], []
+                        ok_ = True
+                        for s_ in sess:
+                            line = 'ereplay %d %d %d %d ; %s ; 0:%d:0 ; %s' % (s_['n'], s_['R'], s_['W'], s_['bmax'], ' '.join(map(str, s_['poss'])), fail_pos, ' '.join(c13_trace.to_labels(s_)))
+                            o = run_lines(model, [line], shards=1)[0]
+                            if not o.startswith('eok'):
+                                ok_ = False
+                                break
+                            kv = dict(x.split('=', 1) for x in o.split()[1:])
+                            pc += [x for x in kv['cnt'].split(',') if x]
+                            pb += [int(x) for x in kv['bad'].split(',') if x]
+                        if ok_:
+                            stats['err_model_replays'] = stats.get('err_model_replays', 0) + 1
+                            if str(len(pc)) != summ.get('error_io') or sorted(set(pb)) != bad:
+                                chk.violation('errmodel_skip_%d_%s_np%d' % (cache, mname, np_),
+                                              'MODEL-DRIFT or defect: the writer error bookkeeping model (RingErr.estep) replaying the recorded trace with the injected failure predicts %d counted errors and positions %s; '
+                                              'the tool reports error_io=%s and bad marks %s (--test-io-cache %d, %s)' % (len(pc), sorted(pb), summ.get('error_io'), bad, cache, mname),
+                                              dict(descr, predicted_cnt=pc, predicted_bad=pb, tool_bad=bad, tool_summary=summ), no_input=(summ.get('error_io') == '1' and bad == [fail_pos]))
+                        else:
+                            stats['err_model_skipped'] = stats.get('err_model_skipped', 0) + 1
+                    except c13_trace.TraceError:
+                        stats['err_model_skipped'] = stats.get('err_model_skipped', 0) + 1
                 cur_ = (rc, tags, bad, arr.snapshot())
                 if ref is None:
                     ref = (cur_, cache, mname)
@@ -1198,7 +1230,7 @@ def main(tier, replay=None):
         dstats['scrub_cross'] = diff_scrub_cross(chk, tool, shim, base, rng)
         dstats['autosave'] = diff_autosave(chk, tool, shim, arrays[1 if len(arrays) > 1 else 0])
         dstats['families'] = diff_families(chk, tool, shim, base, rng, tier)
-        dstats['skip_after_write_fault'] = diff_skip_after_write_fault(chk, tool, shim, base, rng)
+        dstats['skip_after_write_fault'] = diff_skip_after_write_fault(chk, tool, shim, base, rng, model=model, hooked=hooked)
         if tier == 'thorough':
             for _ in range(4):
                 sub = os.path.join(base, 'more%d' % _)
@@ -1243,7 +1275,7 @@ def main(tier, replay=None):
         'ASSUMED, only tested: the per-stripe computation of sync.c/scrub.c is independent of the order in which io_data_read returns the disks (rehandle[], failed[] are indexed by disk, the failed list is sorted) -- tested by the pending-rehash scenario under yield seeds and a slowed disk (LD_PRELOAD pread delay), content files compared and a following check required clean',
         'ASSUMED, only tested (no Coq model of scrub.c state_scrub_process here; the ring model stops at handing tasks to the caller): the classification of the block of disk j in a stripe (file error vs silent data error, bad mark) depends only on disk j own file/block state, not on the other disks of the stripe nor on their arrival order -- tested by the cross-disk scrub scenario (touched file and silent error on different disks of one stripe, both disk orders), compared across depths 1/3/8/128, yield seeds, one slowed disk at a time, and against the expected classification and bad marks',
         'exercised by oracle only (cache-depth differential incl. default depth, no Coq model): continuation after open/read faults of a data disk (ENOENT, EIO) in sync, scrub and test-dry, parity read EIO in scrub/test-dry, parity WRITE EIO in sync at a middle stripe, before an autosave and at the last stripe (io_writer_bad / io_write_bad bad marks), scrub plans new/auto/even/force-at/bad/percent, scrub and sync and sync -h with a pending rehash, silent errors recovered by sync under a pending rehash, silent parity corruption in synced and in time-stamp-unsynced stripes, sync over bad marks, sync -h (pre-hash), sync -F, deallocation of deleted blocks, io statistics (io_refresh) under a ticking clock',
-        'exercised by oracle only (the ring model has no error field: a writer reports the state of its last task to io_writer_step, and DONE after an EMPTY task): a failed parity write is counted exactly once and exactly its stripe is marked bad, also when EMPTY (skipped) writer tasks follow it -- scenario skip_after_write_fault, depths 1/3/8/128 x yield seeds, compared with mono and with the injected failure',
+        'writer error bookkeeping (latest_state, writer_error[], writer_bad_map) is modelled in coq/Ring/RingErr.v on top of the ring model and proved for all schedules and outcome assignments (exactly once, nothing for EMPTY/successful tasks, nothing lost at stop, at most io_max-1 pending positions per writer); TIE: the hook does not log the counters, so the model is tied by (1) the write-fault differential (error_io and bad marks equal the injected failures at every depth) and (2) replaying the recorded traces of the skip_after_write_fault runs through the extracted estep with the injected outcome and comparing the predicted collected counters/positions with the error_io / bad marks the tool reports; approximation: the drain of the positions is merged with the io_write_next atomic section',
         'not reached on purpose: fatal / LCOV_EXCL branches (TASK_STATE_IOERROR/ERROR bail-outs, io error limit, close errors), O_DIRECT buffers (io.c:1159), the IO_MIN clamp of the default depth (io.c:1138, needs blocks above 5 MiB), the conf-file autosave of scrub (granularity is GB), EACCES, attribute/data change racing with the command',
         'io_refresh_thread (progress display only) and the mono-thread variants (io_max = 1, trivially sequential) are not in the model; io_max = 1 is covered by the differential runs']
     return chk.finish()
